@@ -223,6 +223,12 @@ func StartNC(env *Env, sc *NCSession) (*NCRun, <-chan struct{}) {
 		return nr, done
 	}
 	nr.D = d
+	if sc.Server.HelloLate > 0 {
+		env.Go("srv", func() {
+			time.Sleep(Micro(sc.Server.HelloLate))
+			nr.Tr.Inject(nr.Srv.LateHello())
+		})
+	}
 	done := env.Go("user", func() { nr.workload(env) })
 
 	return nr, done
